@@ -38,10 +38,15 @@ def typ_text(typ):
     return "%s%d" % typ if typ else None
 
 
-def render_pat(pat, comma_space=True):
-    """Pattern text of a rule: one blank after the mnemonic, optional blank after commas."""
+def render_pat(pat, comma_space=True, cs=None):
+    """Pattern text of a rule: one blank after the mnemonic, optional blank after commas. `cs` = (before, after) gives this
+    rule its own spacing around commas (a blank written in a pattern must be present in the instruction, but it is not
+    literal text: it must not weigh in when a more literal rule competes with a more general one)."""
     out = []
     for i, el in enumerate(pat):
+        if el[0] == "lit" and el[1] == "," and cs is not None:
+            out.append(cs[0] + "," + cs[1])
+            continue
         if el[0] == "lit":
             s = el[1]
         elif el[0] == "param":
@@ -196,7 +201,10 @@ class IsaGen:
             pieces.insert(rng.randint(1, len(pieces)), (lit_sized(rng, pad), pad))
             size += pad
         prod = concat([p for p, _ in pieces])
-        return {"pat": pat, "prod": prod, "size": size, "name": "r%d" % idx}
+        rule = {"pat": pat, "prod": prod, "size": size, "name": "r%d" % idx}
+        if rng.random() < 0.3:
+            rule["cs"] = rng.choice([(" ", ""), ("", " "), (" ", " "), ("", ""), ("  ", " ")])
+        return rule
 
     def gen(self):
         rng = self.rng
@@ -345,9 +353,12 @@ def render_isa(isa, order=None, split=None):
         lines.append("#ruledef\n{")
         for i in b:
             r = isa["rules"][i]
-            lines.append("    %s => %s" % (render_pat(r["pat"], isa.get("comma_space", True)), show_prod(r["prod"])))
+            lines.append("    %s => %s" % (render_pat(r["pat"], isa.get("comma_space", True), r.get("cs")), show_prod(r["prod"])))
         lines.append("}")
     return "\n".join(lines) + "\n"
+
+
+PRE_COMMA_BLANK = True
 
 
 def render_instr(toks, style=None):
@@ -368,6 +379,8 @@ def render_instr(toks, style=None):
                 gap = " "
             elif t[0] == "t" and t[1] == ",":
                 gap = " "
+            elif PRE_COMMA_BLANK and toks[i + 1][0] == "t" and toks[i + 1][1] == ",":
+                gap = " "          # some rule of the instruction set writes a blank before its commas: the instruction has one too
             if style and style.get("gaps"):
                 gap += style["gaps"][i]
             out.append(gap)
